@@ -315,7 +315,15 @@ pub fn gen_history(
         HField { name: if raw { format!("r#f{counter}") } else { format!("f{counter}") }, base, optional }
     };
     // scripts starting with 'W' use a wide initial record: made-optional positions far from 0
-    let n_init = if script.map(|s| s.starts_with('W')).unwrap_or(false) { 18 + rng.below(6) as usize } else { 1 + rng.below(4) as usize };
+    // … and with 'X' the widest record the format allows: 128 fields in chunk 0, the last one at position 127 (the
+    // position byte of a made-optional step is a negated i8)
+    let n_init = if script.map(|s| s.starts_with('X')).unwrap_or(false) {
+        128
+    } else if script.map(|s| s.starts_with('W')).unwrap_or(false) {
+        18 + rng.below(6) as usize
+    } else {
+        1 + rng.below(4) as usize
+    };
     let initial: Vec<HField> = (0..n_init).map(|_| fresh(rng)).collect();
     let mut h = History { id: id.to_string(), initial, steps: vec![] };
     if let Some(script) = script {
